@@ -180,7 +180,8 @@ Inductive primcase :=
 | PIArrNp (op : Z) (t kt : ity) (a : list Z) (k : Z)   (* a <op>= np.<kt>(k) *)
 | PAstype (t : ity) (a : list Z)                       (* np.array(a).astype(t) *)
 | PCanStore (t : ity) (z : Z)
-| PMinScalar (z : Z).
+| PMinScalar (z : Z)
+| PFullType (z : Z).                                   (* np.full(1, z).dtype *)
 
 Definition zop (op : Z) : Z -> Z -> Z :=
   if op =? 0 then Z.add else if op =? 1 then Z.sub else if op =? 2 then Z.mul
@@ -196,6 +197,7 @@ Definition pout (c : primcase) : iout :=
   | PAstype t a => one_row (Ok (astype (DInt t) (mkT DInf a)))
   | PCanStore t z => IMask [s_can_store (DInt t) z]
   | PMinScalar z => match min_scalar_type z with Some t => IRows (DInt t) [] | None => IExc OtherError end
+  | PFullType z => IRows (DInt (np_int_type z)) []
   end.
 
 (* float64 results carry exact integer values in the sweep, except for division / remainder,
